@@ -2,18 +2,37 @@
   C15 — Results are reproducible and do not depend on the order of the inputs.
   Route: every use of a hash container in the compiler is order-free (extracted list, obligation
   `hash_uses_order_free`), so the only way the order of the input files can reach a result is the order in
-  which they are folded into the name table. For programs whose scoped names are pairwise distinct — which
-  every accepted program satisfies for definitions, see the redefinition scan — the table is a finite map:
-  permuting the files permutes the table, and every lookup, scope search, alias walk and reference
-  resolution is invariant under that permutation. The key clash between a module `A::B` and a definition
-  `B` of module `A` (modules are not checked by the redefinition scan) is the excluded case, refuted below.
+  which they are folded into the name table (and into the list of definitions the validators walk).
+
+  Part 1 (`table_perm` … `resolution_order_independent`): for indexed files whose scoped names are pairwise
+  distinct the table is a finite map: permuting the files permutes the table, and every lookup, scope search,
+  alias walk and reference resolution is invariant.
+
+  Part 2 (`name_table_order_independent` … `lint_sites_order_independent`): the whole checking pipeline — the model
+  `validate` of C04 with its phases and gates, and the lint sites of C13 — composed with part 1. Side condition
+  `UniqueKeys P`: different files never declare the same scoped name, except that they may re-open the same module
+  (within one file anything goes: a parameter and a return member of the same name, duplicate fields, …). Under it
+  the multiset of error codes, hence the verdict, the set of codes and the `codes` projection the harness compares,
+  and the multiset of located lint sites (with the level each is emitted with) are the same for every order of the
+  files. `unique_keys_needed_*` show what happens without it.
+
+  Part 3 (`accepted_programs_have_unique_keys`, `verdict_order_independent_of_identifiers`): when every declared name is
+  an identifier — true of everything a source text can produce — the side condition follows from acceptance (a key shared
+  by two files is a redefinition or a definition named like a module, both rejected in every order), so the verdict is
+  order independent with no side condition at all; the error *set* of a rejected program is not
+  (`unique_keys_needed_for_error_set`).
 -/
 import SlicecVerif.Lemmas.Perm
+import SlicecVerif.Lemmas.PermValidate
+import SlicecVerif.Lemmas.PermLints
+import SlicecVerif.Lemmas.PermIdent
+import SlicecVerif.Lemmas.PermElab
+import SlicecVerif.Props.C04
 import SlicecVerif.Gen.HashUses
 
 namespace Slicec.C15
 
-open Slicec
+open Slicec Slicec.Validate
 
 /-- methods whose result cannot depend on the iteration order of a hash container -/
 def orderFree : List String :=
@@ -55,13 +74,254 @@ theorem resolution_order_independent (fs1 fs2 : List (SFile × Nat)) (h : fs1.Pe
     resolveNamed (buildTableIdx fs1) w id scope = resolveNamed (buildTableIdx fs2) w id scope :=
   resolveNamed_perm _ _ (table_perm fs1 fs2 h) hnd w id scope
 
-/-! The full statement — for every permutation of the files, acceptance, each file's compiled content and the set of
-    warnings are equal — additionally needs the validators (C04) composed with the theorems above; it is not proved
-    here. The correspondence checks it directly on the implementation: every generated program is compiled in all
-    permutations of its files (and twice in the same order) and the verdicts, per-file dumps, warnings and encoded
-    requests are compared. -/
 
-/-- the excluded case is real (D-15a): `module A::B` in one file and `struct B` in `module A` of another share
+/-! ## Part 2: the checking pipeline and the lints under a permutation of the files
+
+`P.Perm P'`: the same files in another order. `UniqueKeys P` (Lemmas/PermTable.lean, decidable): for any two different
+files of `P`, a scoped name declared by a definition of one of them (the definition itself or one of its fields,
+operations, parameters, return members, enumerators) is declared nowhere in the other — neither by a definition nor as
+its module. Two files may declare the same module, with different attributes. -/
+
+/-- the side condition does not depend on the order either -/
+theorem uniqueKeys_perm (P P' : Program) (hp : P.Perm P') : UniqueKeys P ↔ UniqueKeys P' :=
+  ⟨UniqueKeys.perm hp, UniqueKeys.perm hp.symm⟩
+
+/-- **the name table.** The tables built from the files in the two orders answer every lookup with the same node — same
+    kind, key, module scope, identifier, alias target, primitive and attributes (`NodeInfo.norm` forgets only the index of
+    the declaring file, which the permutation changes, and the attributes of a module declaration, which no consumer
+    reads) — and hold the same number of aliases. Unlike `lookup_order_independent` this is about `buildTable` itself
+    (files re-indexed by position) and needs no globally distinct keys: shared modules and clashes inside one file are
+    allowed. -/
+theorem name_table_order_independent (P P' : Program) (hp : P.Perm P') (hu : UniqueKeys P) :
+    (∀ k, ((buildTable P).find k).map NodeInfo.norm = ((buildTable P').find k).map NodeInfo.norm) ∧
+    numAliases (buildTable P) = numAliases (buildTable P') :=
+  buildTable_sim P P' hp hu
+
+/-- **resolution.** Every reference (type position, base interface, underlying type), written in any scope, resolves in the
+    two orders to the same thing: the same error, or the same node (up to `norm`) / written type expression with the same
+    attributes accumulated along the alias chain. -/
+theorem resolution_order_independent_files (P P' : Program) (hp : P.Perm P') (hu : UniqueKeys P) (w : Want) (id scope : String) :
+    (resolveNamed (buildTable P) w id scope).map normR = (resolveNamed (buildTable P') w id scope).map normR :=
+  resolveNamed_sim _ _ (buildTable_sim P P' hp hu) w id scope
+
+/-- **definitions by key.** The definition a scoped name denotes for the validators (last writer wins) is the same. -/
+theorem definition_lookup_order_independent (P P' : Program) (hp : P.Perm P') (hu : UniqueKeys P) (key : String) :
+    findDef P key = findDef P' key :=
+  findDef_perm P P' hp hu key
+
+/-- **the cycle gate** gives the same answer in both orders (same dependency edges, same reachability). -/
+theorem cycle_gate_order_independent (P P' : Program) (hp : P.Perm P') (hu : UniqueKeys P) : hasCycle P = hasCycle P' :=
+  hasCycle_perm P P' hp hu
+
+/-- **the redefinition scan** reports the same multiset of codes in both orders — without any side condition (the hash-map
+    scan reports one code per repeated name whatever the order in which the names are met). -/
+theorem redefinition_scan_order_independent (P P' : Program) (hp : P.Perm P') : (namesRule.codes P).Perm (namesRule.codes P') :=
+  names_codes_perm P P' hp
+
+/-- **the visitor rules.** For every rule of the validating visitor, the contexts it is applied to in the permuted program
+    are a permutation of the contexts in the original — including everything in a context that was computed through the
+    name table or the definitions: resolved underlying types of enums, attributes inherited through aliases, the inherited
+    operations of an interface (transitive bases), the key-type environment of the dictionary-key rule. -/
+theorem rule_contexts_order_independent (b : Bool) (P P' : Program) (hp : P.Perm P') (hu : UniqueKeys P) :
+    ∀ r ∈ visitorRules b, (r.ctxs P).Perm (r.ctxs P') :=
+  visitor_ctxs_perm b P P' hp hu
+
+/-- **the error codes.** The codes reported for the permuted program are a permutation of the codes reported for the
+    original: the same phase is the first to report (parse-time checks, attributes, resolution, cycle gate, redefinitions,
+    visitor) and it reports the same codes the same number of times. -/
+theorem error_codes_order_independent (P P' : Program) (hp : P.Perm P') (hu : UniqueKeys P) : (validate P).Perm (validate P') :=
+  validate_perm P P' hp hu
+
+/-- **the verdict does not depend on the order of the files**: the program is accepted in one order exactly when it is
+    accepted in the other. -/
+theorem verdict_order_independent (P P' : Program) (hp : P.Perm P') (hu : UniqueKeys P) : validate P = [] ↔ validate P' = [] := by
+  have h := validate_perm P P' hp hu
+  constructor
+  · intro e; rw [e] at h; exact (List.Perm.nil_eq h).symm
+  · intro e; rw [e] at h; exact h.eq_nil
+
+/-- **the set of error codes does not depend on the order of the files** (for a rejected program: which codes it is
+    rejected with). -/
+theorem error_set_order_independent (P P' : Program) (hp : P.Perm P') (hu : UniqueKeys P) (c : String) :
+    c ∈ validate P ↔ c ∈ validate P' :=
+  (validate_perm P P' hp hu).mem_iff
+
+/-- … and so the `codes` projection the `compile` engine compares (sorted set of codes, `-` when empty) is the same string. -/
+theorem codes_projection_order_independent (P P' : Program) (hp : P.Perm P') (hu : UniqueKeys P) :
+    codesProjection (validate P) = codesProjection (validate P') :=
+  codesProjection_perm_eq (validate_perm P P' hp hu)
+
+/-- the same on the specification side (C04 `accept_iff`): well-formedness — every language rule of the property — does not
+    depend on the order of the files. -/
+theorem wellFormed_order_independent (P P' : Program) (hp : P.Perm P') (hu : UniqueKeys P) : WellFormed P ↔ WellFormed P' := by
+  rw [← C04.accept_iff, ← C04.accept_iff]
+  exact verdict_order_independent P P' hp hu
+
+/-- **the compiled content.** The canonical dump of a file (C02's `fileS`: every element with its attributes, tags, enumerator
+    values, and every type reference, base and underlying type with the definition it was bound to and the attributes
+    collected through aliases) is the same string whatever the order of the files; the dump of the permuted program consists
+    of the same per-file dumps, permuted. -/
+theorem compiled_content_order_independent (P P' : Program) (hp : P.Perm P') (hu : UniqueKeys P) :
+    (∀ f, fileS (buildTable P) f = fileS (buildTable P') f) ∧
+    (P.map (fileS (buildTable P))).Perm (P'.map (fileS (buildTable P'))) :=
+  fileS_perm P P' hp hu
+
+/-- **the warnings.** A lint site records the *position* of its file in the input list, which the permutation changes;
+    `LintSite.located` replaces the position by the file itself. The located lint sites of the permuted program — which lint,
+    in which file, about which element, with which recorded scope, `allow` chain and place in the file — are a permutation of
+    those of the original: the multiset of lints the compiler records does not depend on the order of the files. -/
+theorem lint_sites_order_independent (P P' : Program) (hp : P.Perm P') (hu : UniqueKeys P) :
+    ((lintSites P).map (LintSite.located P)).Perm ((lintSites P').map (LintSite.located P')) :=
+  lintSites_located_perm P P' hp hu
+
+/-- **the emitted warnings.** … and each of them is emitted with the same level (`warning` or `allowed`) in both orders, once
+    `into_updated` has applied the `--allow` values of the command line (`cli`, any), the `allow` attributes of the file the
+    lint lies in, and the `allow` attributes of the element the recorded scope string names (looked up in the name table,
+    last writer wins): the multiset of (file, lint, level) does not depend on the order of the files. -/
+theorem emitted_warnings_order_independent (cli : List String) (P P' : Program) (hp : P.Perm P') (hu : UniqueKeys P) :
+    ((lintSites P).map fun s => (s.located P, emittedLevel cli P s)).Perm
+      ((lintSites P').map fun s => (s.located P', emittedLevel cli P' s)) :=
+  lintLevels_perm cli P P' hp hu
+
+/-- in particular the number of lints of each kind is the same -/
+theorem lint_kinds_order_independent (P P' : Program) (hp : P.Perm P') (hu : UniqueKeys P) :
+    ((lintSites P).map (·.kind)).Perm ((lintSites P').map (·.kind)) := by
+  have h := (lintSites_located_perm P P' hp hu).map (fun x => x.2.kind)
+  simpa [List.map_map, Function.comp_def, LintSite.located, LintSite.setFile] using h
+
+/-! ## Part 3: the verdict without the side condition
+
+`IdentNames P` (Lemmas/PermIdent.lean, decidable): every name a definition declares (its own, its members', their
+members') is a non-empty string without `:`; every module path is a `::`-separated non-empty list of such strings. The
+lexer produces nothing else. -/
+
+/-- the side condition in terms of definitions only. `DistinctDefinitions P`: every file with definitions has a module
+    declaration, no two definitions share a fully-scoped name, and no definition shares its fully-scoped name with a module
+    the program declares or encloses (`module A::B::C` declares `A`, `A::B`, `A::B::C`) — the three things the parse-time
+    module check and the redefinition scan of the global scope enforce. -/
+def DistinctDefinitions (P : Program) : Prop :=
+  (∀ f ∈ P, f.defs ≠ [] → f.module.isSome = true) ∧ ((allDefs P).map defKey).Nodup ∧
+  ∀ x ∈ (allDefs P).map defKey, x ∉ modulePrefixes P
+
+instance (P : Program) : Decidable (DistinctDefinitions P) := by unfold DistinctDefinitions; infer_instance
+
+/-- **with identifiers as names, distinct definitions give unique keys**: the keys of members (`M::S::x`) live below the key
+    of their definition, so two files can only share a key when they share a definition key or when the module path of one
+    runs through a definition key of the other. -/
+theorem uniqueKeys_of_distinct_definitions (P : Program) (hid : IdentNames P) (h : DistinctDefinitions P) : UniqueKeys P :=
+  uniqueKeys_of_names P hid h.1 h.2.1 h.2.2
+
+/-- … so for such programs — accepted or rejected for any other reason — the multiset of error codes does not depend on the
+    order of the files. -/
+theorem error_codes_order_independent_of_distinct_definitions (P P' : Program) (hp : P.Perm P') (hid : IdentNames P)
+    (h : DistinctDefinitions P) : (validate P).Perm (validate P') :=
+  validate_perm P P' hp (uniqueKeys_of_distinct_definitions P hid h)
+
+/-- **an accepted program has unique keys** (names being identifiers): if two different files declare the same scoped name,
+    then either both define it (same module path, same definition name) or a definition of one file has the scoped name of
+    a module the other declares or encloses — the redefinition rule rejects both. More precisely the parse-time rules
+    (a file with definitions has a module declaration) and the redefinition rule suffice. -/
+theorem accepted_programs_have_unique_keys (P : Program) (hid : IdentNames P) (h : validate P = []) : UniqueKeys P := by
+  have hw := (C04.accept_iff P).mp h
+  exact uniqueKeys_of_rules P hid hw.1 (hw.2 namesRule (by simp [gatedRules]))
+
+/-- **the verdict does not depend on the order of the files — no side condition**: for every program whose names are
+    identifiers, and every order of its files, the program is accepted in one order exactly when it is in the other. -/
+theorem verdict_order_independent_of_identifiers (P P' : Program) (hp : P.Perm P') (hid : IdentNames P) :
+    validate P = [] ↔ validate P' = [] := by
+  constructor
+  · intro h
+    exact (verdict_order_independent P P' hp (accepted_programs_have_unique_keys P hid h)).mp h
+  · intro h
+    exact (verdict_order_independent P' P hp.symm (accepted_programs_have_unique_keys P' (hid.perm hp) h)).mp h
+
+/-- for an accepted program nothing else depends on the order either: the lints and the levels they are emitted with -/
+theorem accepted_warnings_order_independent (cli : List String) (P P' : Program) (hp : P.Perm P') (hid : IdentNames P)
+    (h : validate P = []) :
+    validate P' = [] ∧
+    ((lintSites P).map fun s => (s.located P, emittedLevel cli P s)).Perm
+      ((lintSites P').map fun s => (s.located P', emittedLevel cli P' s)) :=
+  ⟨(verdict_order_independent_of_identifiers P P' hp hid).mp h,
+   lintLevels_perm cli P P' hp (accepted_programs_have_unique_keys P hid h)⟩
+
+/-- **the second sentence of the property, on the model, without side condition.** For every program whose names are
+    identifiers, every order `P'` of its files and every list `cli` of `--allow` values: listing the files in a different
+    order does not change whether the program is accepted, and for an accepted program changes neither any file's
+    compiled content nor the multiset of warnings (each with the file it lies in and the level it is emitted with). -/
+theorem input_order_independent (cli : List String) (P P' : Program) (hp : P.Perm P') (hid : IdentNames P) :
+    (validate P = [] ↔ validate P' = []) ∧
+    (validate P = [] →
+      (∀ f, fileS (buildTable P) f = fileS (buildTable P') f) ∧
+      ((lintSites P).map fun s => (s.located P, emittedLevel cli P s)).Perm
+        ((lintSites P').map fun s => (s.located P', emittedLevel cli P' s))) :=
+  ⟨verdict_order_independent_of_identifiers P P' hp hid,
+   fun h => ⟨(fileS_perm P P' hp (accepted_programs_have_unique_keys P hid h)).1,
+             lintLevels_perm cli P P' hp (accepted_programs_have_unique_keys P hid h)⟩⟩
+
+/-- a program rejected by the parse-time checks (literals, tags, return tuples, missing module declaration) or by attribute
+    patching is rejected with the same codes in every order, without any side condition: these phases never consult the
+    name table. (The redefinition scan is order independent as well, `redefinition_scan_order_independent`; what can depend
+    on the order for a program with a cross-file key clash are the two phases in between, resolution and the cycle gate —
+    `unique_keys_needed_for_error_set`.) -/
+theorem early_rejection_order_independent (P P' : Program) (hp : P.Perm P') (h : parseCodes P ≠ [] ∨ attrPatchRule.codes P ≠ []) :
+    (validate P).Perm (validate P') :=
+  validate_perm_early P P' hp h
+
+/-! ## what happens without `UniqueKeys` -/
+
+def mkFile (m : String) (defs : List Def) : SFile := { fileAttrs := [], module := some ⟨[], m⟩, defs := defs }
+def fld (n : String) (t : TyExpr) : Field := { doc := [], attrs := [], tag := none, name := n, ty := .mk [] t false }
+def prm (n : String) (t : TyExpr) : Param := { attrs := [], tag := none, name := n, stream := false, ty := .mk [] t false }
+
+/-- `module M  struct S {}` / `module M  interface S {}` / `module M  struct U { f: S }` -/
+def clashFiles : List SFile :=
+  [mkFile "M" [.struct [] [] false "S" []], mkFile "M" [.iface [] [] "S" [] []], mkFile "M" [.struct [] [] false "U" [fld "f" (.named "S")]]]
+
+/-- **`UniqueKeys` cannot be dropped from `error_set_order_independent`.** Two files define `M::S`, once as a struct and
+    once as an interface; a third uses `S` as a field type. The program is rejected in every order (the redefinition rule
+    sees the clash in any order — this is what the repairs of D-15a/b achieved for the verdict), but *with which code*
+    depends on the last writer of the key: if the interface is parsed last the reference fails to resolve as a type
+    (E017, and the compilation stops before the redefinition scan); if the struct is parsed last it resolves and the
+    redefinition scan reports E010. -/
+theorem unique_keys_needed_for_error_set :
+    IdentNames clashFiles ∧ ¬ UniqueKeys clashFiles ∧
+    validate [clashFiles[0]!, clashFiles[1]!, clashFiles[2]!] = [code "TypeMismatch"] ∧
+    validate [clashFiles[1]!, clashFiles[0]!, clashFiles[2]!] = [code "Redefinition"] := by
+  refine ⟨by decide, by decide, by decide +kernel, by decide +kernel⟩
+
+/-- `struct S { t: T }` / `struct S {}` / `struct T { s: S }` / `struct T {}`, all in `module M` -/
+def cycleClashFiles : List SFile :=
+  [mkFile "M" [.struct [] [] false "S" [fld "t" (.named "T")]], mkFile "M" [.struct [] [] false "S" []],
+   mkFile "M" [.struct [] [] false "T" [fld "s" (.named "S")]], mkFile "M" [.struct [] [] false "T" []]]
+
+/-- the cycle gate, too, sees the last writer of a duplicated key: with both empty variants parsed last no cycle is found
+    and the redefinitions are reported; with the variants that refer to each other parsed last the cycle is reported and the
+    redefinition scan is never reached. Rejected either way. -/
+theorem unique_keys_needed_for_error_set_cycle :
+    IdentNames cycleClashFiles ∧ ¬ UniqueKeys cycleClashFiles ∧
+    validate [cycleClashFiles[0]!, cycleClashFiles[1]!, cycleClashFiles[2]!, cycleClashFiles[3]!] = [code "Redefinition", code "Redefinition"] ∧
+    validate [cycleClashFiles[1]!, cycleClashFiles[0]!, cycleClashFiles[3]!, cycleClashFiles[2]!] = [code "InfiniteSizeCycle"] := by
+  refine ⟨by decide, by decide, by decide +kernel, by decide +kernel⟩
+
+/-- a "definition" named `S::x` (expressible in the abstract syntax only: the grammar admits no `::` in the name of a
+    definition) next to a struct `S` with a field `x`, and a user of `S::x` -/
+def oddFiles : List SFile :=
+  [mkFile "M" [.struct [] [] false "S::x" []], mkFile "M" [.struct [] [] false "S" [fld "x" (.prim .bool)]],
+   mkFile "M" [.struct [] [] false "U" [fld "f" (.named "S::x")]]]
+
+/-- **… nor from `verdict_order_independent`, on the model.** The redefinition rule compares definitions with definitions
+    and with modules; it does not compare a *member's* scoped name with a definition's. The only way to make those two
+    collide without also tripping the redefinition rule is a definition whose name contains `::` — which no source text
+    can produce. On such an abstract program the verdict does depend on the order: the key `M::S::x` is the struct in one
+    order and the field (not a type) in the other. For programs that can be written, every key clash between different
+    files implies a redefinition or a definition named like a module, which is rejected in every order. -/
+theorem unique_keys_needed_for_verdict_on_abstract_syntax :
+    ¬ IdentNames oddFiles ∧ ¬ UniqueKeys oddFiles ∧
+    validate [oddFiles[1]!, oddFiles[0]!, oddFiles[2]!] = [] ∧
+    validate [oddFiles[0]!, oddFiles[1]!, oddFiles[2]!] = [code "TypeMismatch"] := by
+  refine ⟨by decide, by decide, by decide +kernel, by decide +kernel⟩
+
+/-- the excluded case of part 1 is real (D-15a): `module A::B` in one file and `struct B` in `module A` of another share
     the key `A::B`; whichever file comes last wins the table, so a reference to `B` resolves to the struct in
     one order and to the module (a type mismatch) in the other. -/
 theorem key_clash_is_order_dependent :
@@ -71,11 +331,80 @@ theorem key_clash_is_order_dependent :
     ((buildTable [f2, f1]).find "A::B").map (·.kind) = some .module := by
   decide
 
-/-! non-vacuity: two files with distinct names -/
+/-! ## non-vacuity -/
+
+/-- part 1: two files with distinct names -/
 example :
     let f1 : SFile := { fileAttrs := [], module := some ⟨[], "M"⟩, defs := [.struct [] [] false "S" []] }
     let f2 : SFile := { fileAttrs := [], module := some ⟨[], "N"⟩, defs := [.custom [] [] "C"] }
     (buildTableIdx [(f1, 0), (f2, 1)]).keys.Nodup := by decide
+
+/-- `module A  struct X { y: B::Y }` — refers to the second file -/
+def g1 : SFile := mkFile "A" [.struct [] [] false "X" [fld "y" (.named "B::Y")]]
+/-- `module A::B  struct Y { w: ::C::W }  typealias T = X` — refers to the third file, and (outward scope search) to the first -/
+def g2 : SFile := mkFile "A::B" [.struct [] [] false "Y" [fld "w" (.named "::C::W")], .alias [] [] "T" (.mk [] (.named "X") false)]
+/-- `module C  enum W : uint8 { P }  interface I { op(x: A::B::T) }` — refers to the second file through an alias of the first -/
+def g3 : SFile := mkFile "C"
+  [.enum [] [] false false "W" (some (.mk [] (.prim .uint8) false)) [{ doc := [], attrs := [], name := "P", fields := none, value := none }],
+   .iface [] [] "I" [] [{ doc := [], attrs := [], idempotent := false, name := "op", params := [prm "x" (.named "A::B::T")], ret := .none }]]
+
+/-- a three-file program with references across the files satisfies the side conditions and is accepted in all six orders … -/
+example : UniqueKeys [g1, g2, g3] ∧ IdentNames [g1, g2, g3] := by refine ⟨by decide, by decide⟩
+example : validate [g1, g2, g3] = [] ∧ validate [g1, g3, g2] = [] ∧ validate [g2, g1, g3] = [] ∧
+          validate [g2, g3, g1] = [] ∧ validate [g3, g1, g2] = [] ∧ validate [g3, g2, g1] = [] := by
+  refine ⟨by decide +kernel, by decide +kernel, by decide +kernel, by decide +kernel, by decide +kernel, by decide +kernel⟩
+/-- … one order follows from another by the theorem -/
+example : validate [g2, g1, g3] = [] :=
+  (verdict_order_independent [g1, g2, g3] [g2, g1, g3] (List.Perm.swap _ _ _) (by decide)).mp (by decide +kernel)
+/-- … without checking the side condition `UniqueKeys`: the names are identifiers -/
+example : validate [g3, g1, g2] = [] :=
+  (verdict_order_independent_of_identifiers [g1, g2, g3] [g3, g1, g2]
+    (List.perm_append_comm (l₁ := [g1, g2]) (l₂ := [g3])) (by decide)).mp (by decide +kernel)
+/-- … and it is rejected, whatever the order, without the file the others depend on -/
+example : validate [g1, g3] ≠ [] ∧ validate [g3, g1] ≠ [] := by
+  refine ⟨by decide +kernel, by decide +kernel⟩
+
+/-- a rejected program with distinct definitions (a reference to a type that does not exist): the side conditions hold, and
+    the codes agree in both orders as `error_codes_order_independent_of_distinct_definitions` says -/
+example :
+    let f1 := mkFile "M" [.struct [] [] false "S" [fld "a" (.named "Nope")]]
+    let f2 := mkFile "N" [.custom [] [] "C"]
+    IdentNames [f1, f2] ∧ DistinctDefinitions [f1, f2] ∧ validate [f1, f2] = [code "DoesNotExist"] ∧ validate [f2, f1] = [code "DoesNotExist"] := by
+  refine ⟨by decide, by decide, by decide +kernel, by decide +kernel⟩
+
+/-- a rejected program under the side condition: a containment cycle through two files, same code in both orders -/
+example :
+    let f1 := mkFile "M" [.struct [] [] false "S" [fld "a" (.named "T")]]
+    let f2 := mkFile "M" [.struct [] [] false "T" [fld "b" (.named "S")]]
+    UniqueKeys [f1, f2] ∧ validate [f1, f2] = [code "InfiniteSizeCycle"] ∧ validate [f2, f1] = [code "InfiniteSizeCycle"] := by
+  refine ⟨by decide, by decide +kernel, by decide +kernel⟩
+
+/-- the side condition is weaker than "all keys of the table distinct": two files re-open module `M` (here with different
+    attributes), and an operation has a parameter and a return member of the same name (accepted by the compiler; two
+    entries under the key `M::I::op::a`) -/
+def opSameNames : Def :=
+  .iface [] [] "I" [] [{ doc := [], attrs := [], idempotent := false, name := "op", params := [prm "a" (.prim .bool)],
+                         ret := .tuple [prm "a" (.prim .bool), prm "b" (.prim .bool)] }]
+example :
+    let f1 : SFile := { fileAttrs := [], module := some ⟨[⟨"cs::x", []⟩], "M"⟩, defs := [opSameNames] }
+    let f2 := mkFile "M" [.struct [] [] false "S" []]
+    UniqueKeys [f1, f2] ∧ ¬ (buildTable [f1, f2]).keys.Nodup := by
+  refine ⟨by decide, by decide⟩
+example :
+    let f1 := mkFile "M" [opSameNames]
+    let f2 := mkFile "M" [.struct [] [] false "S" []]
+    UniqueKeys [f1, f2] ∧ ¬ (buildTable [f1, f2]).keys.Nodup ∧ validate [f1, f2] = [] ∧ validate [f2, f1] = [] := by
+  refine ⟨by decide, by decide, by decide +kernel, by decide +kernel⟩
+
+/-- lints: a deprecated struct of one file used in two others, one lint per use, located in the using file, in both orders -/
+example :
+    let f1 := mkFile "M" [.struct [] [⟨"deprecated", []⟩] false "Old" []]
+    let f2 := mkFile "M" [.struct [] [] false "A" [fld "x" (.named "Old")]]
+    let f3 := mkFile "N" [.struct [] [] false "B" [fld "y" (.named "M::Old")]]
+    UniqueKeys [f1, f2, f3] ∧
+    (lintSites [f1, f2, f3]).map (fun s => (s.kind, s.file, s.scope)) = [("Deprecated", 1, some "M::A::x"), ("Deprecated", 2, some "N::B::y")] ∧
+    (lintSites [f3, f1, f2]).map (fun s => (s.kind, s.file, s.scope)) = [("Deprecated", 0, some "N::B::y"), ("Deprecated", 2, some "M::A::x")] := by
+  refine ⟨by decide, by decide +kernel, by decide +kernel⟩
 
 end Slicec.C15
 
@@ -86,3 +415,29 @@ end Slicec.C15
 #print axioms Slicec.C15.scope_search_order_independent
 #print axioms Slicec.C15.resolution_order_independent
 #print axioms Slicec.C15.key_clash_is_order_dependent
+#print axioms Slicec.C15.uniqueKeys_perm
+#print axioms Slicec.C15.name_table_order_independent
+#print axioms Slicec.C15.resolution_order_independent_files
+#print axioms Slicec.C15.definition_lookup_order_independent
+#print axioms Slicec.C15.cycle_gate_order_independent
+#print axioms Slicec.C15.redefinition_scan_order_independent
+#print axioms Slicec.C15.rule_contexts_order_independent
+#print axioms Slicec.C15.error_codes_order_independent
+#print axioms Slicec.C15.verdict_order_independent
+#print axioms Slicec.C15.error_set_order_independent
+#print axioms Slicec.C15.codes_projection_order_independent
+#print axioms Slicec.C15.wellFormed_order_independent
+#print axioms Slicec.C15.compiled_content_order_independent
+#print axioms Slicec.C15.lint_sites_order_independent
+#print axioms Slicec.C15.lint_kinds_order_independent
+#print axioms Slicec.C15.emitted_warnings_order_independent
+#print axioms Slicec.C15.uniqueKeys_of_distinct_definitions
+#print axioms Slicec.C15.error_codes_order_independent_of_distinct_definitions
+#print axioms Slicec.C15.accepted_programs_have_unique_keys
+#print axioms Slicec.C15.verdict_order_independent_of_identifiers
+#print axioms Slicec.C15.accepted_warnings_order_independent
+#print axioms Slicec.C15.input_order_independent
+#print axioms Slicec.C15.early_rejection_order_independent
+#print axioms Slicec.C15.unique_keys_needed_for_error_set
+#print axioms Slicec.C15.unique_keys_needed_for_error_set_cycle
+#print axioms Slicec.C15.unique_keys_needed_for_verdict_on_abstract_syntax
